@@ -159,7 +159,137 @@ def module_to(E, self, *a, **k):
     return self
 
 
+# ------------------------------------------------------------------------------------------------ module tree protocol
+def _children(self):
+    return [(n, c) for n, c in self.fields.get("_modules", {}).items() if c is not None]
+
+
+def named_modules(E, self, memo=None, prefix="", remove_duplicate=True):
+    out, seen = [], set()
+
+    def rec(m, pre):
+        if id(m) in seen:
+            return
+        seen.add(id(m))
+        out.append((pre, m))
+        for n, c in _children(m):
+            rec(c, pre + ("." if pre else "") + n)
+
+    rec(self, prefix)
+    return out
+
+
+def named_children(E, self):
+    return list(_children(self))
+
+
+def named_parameters(E, self, prefix="", recurse=True):
+    out = []
+    for pre, m in (named_modules(E, self) if recurse else [("", self)]):
+        for n, p in m.fields.get("_parameters", {}).items():
+            if p is not None:
+                out.append((pre + ("." if pre else "") + n, p))
+    return out
+
+
+def parameters(E, self, recurse=True):
+    return [p for _, p in named_parameters(E, self, recurse=recurse)]
+
+
+def get_submodule(E, self, target):
+    if target == "":
+        return self
+    cur = self
+    for part in target.split("."):
+        mods = cur.fields.get("_modules", {})
+        if part not in mods or mods[part] is None:
+            raise_(E, "AttributeError", f"{cur.cls.name} has no attribute `{part}`")
+        cur = mods[part]
+    return cur
+
+
+def default_save_to_state_dict(E, self, destination, prefix, keep_vars):
+    from .tm_tensor import call_aten
+    from .values import AtenOp
+
+    for n, p in self.fields.get("_parameters", {}).items():
+        if p is not None:
+            destination[prefix + n] = p if keep_vars else call_aten(E, AtenOp("detach"), [p], {})
+    for n, b in self.fields.get("_buffers", {}).items():
+        if b is not None:
+            destination[prefix + n] = b if keep_vars else call_aten(E, AtenOp("detach"), [b], {})
+
+
+def default_load_from_state_dict(E, self, state_dict, prefix, local_metadata, strict, missing_keys, unexpected_keys, error_msgs):
+    """nn.Module._load_from_state_dict (A-TORCH-NN): copy_ every own parameter / persistent buffer found under prefix+name; with
+    strict: report missing ones and unexpected keys directly under this prefix."""
+    from .tm_index import copy_
+
+    own = {}
+    own.update({n: p for n, p in self.fields.get("_parameters", {}).items()})
+    own.update({n: b for n, b in self.fields.get("_buffers", {}).items()})
+    for n, p in own.items():
+        if p is None:
+            continue
+        key = prefix + n
+        if key in state_dict:
+            src = state_dict[key]
+            if isinstance(p, STensor) and isinstance(src, STensor):
+                if len(p.shape) != len(src.shape) or E.eq(tuple(p.shape), tuple(src.shape)) is False:
+                    error_msgs.append(f"size mismatch for {key}")
+                    continue
+                copy_(E, p, src)
+            else:
+                error_msgs.append(f"cannot copy {key}: unsupported tensor kinds")
+        elif strict:
+            missing_keys.append(key)
+    if strict:
+        for key in list(state_dict.keys()):
+            if isinstance(key, str) and key.startswith(prefix):
+                rest = key[len(prefix):].split(".", 1)
+                if len(rest) == 1 and rest[0] not in own:
+                    unexpected_keys.append(key)
+                elif len(rest) > 1 and rest[0] not in self.fields.get("_modules", {}):
+                    unexpected_keys.append(key)
+
+
+def _method(E, m, name):
+    cv, owner = m.cls.lookup(name)
+    return cv
+
+
+def state_dict(E, self, destination=None, prefix="", keep_vars=False):
+    dest = {} if destination is None else destination
+    fn = _method(E, self, "_save_to_state_dict")
+    E.call(fn, [self, dest, prefix, keep_vars], {})
+    for n, c in _children(self):
+        state_dict(E, c, dest, prefix + n + ".", keep_vars)
+    return dest
+
+
+def load_state_dict(E, self, sd, strict=True, assign=False):
+    sd = dict(sd)
+    missing, unexpected, errors = [], [], []
+
+    def rec(m, prefix):
+        fn = _method(E, m, "_load_from_state_dict")
+        E.call(fn, [m, sd, prefix, {"assign_to_params_buffers": assign} if assign else {}, True, missing, unexpected, errors], {})
+        for n, c in _children(m):
+            rec(c, prefix + n + ".")
+
+    rec(self, "")
+    if strict and (missing or unexpected):
+        errors.insert(0, f"Missing key(s): {missing}; Unexpected key(s): {unexpected}")
+    if errors:
+        raise_(E, "RuntimeError", "Error(s) in loading state_dict: " + "; ".join(str(e) for e in errors))
+    return None
+
+
 def install(E):
+    for nm, fn in (("named_modules", named_modules), ("named_children", named_children), ("named_parameters", named_parameters),
+                   ("parameters", parameters), ("get_submodule", get_submodule), ("_save_to_state_dict", default_save_to_state_dict),
+                   ("_load_from_state_dict", default_load_from_state_dict), ("state_dict", state_dict), ("load_state_dict", load_state_dict)):
+        MODULE_CLS.ns[nm] = Builtin("Module." + nm, fn)
     CONV2D_CLS.ns["_conv_forward"] = Builtin("Conv2d._conv_forward", conv_forward)
     MODULE_CLS.ns["to"] = Builtin("Module.to", module_to)
     MODULE_CLS.ns["__init__"] = Builtin("Module.__init__", module_init)
